@@ -159,6 +159,10 @@ def step (st : DState) (toks : List String) : Option (DState × String) :=
     pure (st', s!"{v} {showState st'}")
   | "extern" :: rest => do
     let stmts ← parseStmts rest
+    -- REFERENCES columns are kept out of plain-SQL tables (foreign keys are enforced on inserts)
+    if stmts.any (fun s => match s with
+        | .table _ cols _ _ => cols.any (fun c => c.2.fk)
+        | _ => false) then none
     match externAll st.db.tables stmts with
     | some tables' =>
       let st' : State := { db := { tables := tables', persisted := st.db.persisted }, mem := st.mem }
